@@ -3,7 +3,7 @@
    is in the comment above it; what is NOT proved is said there too. *)
 From VP Require Import Base.Tactics Zdd.Model Zdd.ProofsBase Zdd.ProofsPwo Zdd.ProofsArena
   Sase.Model Sase.ProofsBounds Sase.ProofsSound Sase.ProofsSoundEngine Sase.ProofsCompile Sase.ProofsPattern Sase.ProofsKleene Sase.ProofsKeyed
-  Sase.Ref Sase.ProofsExactRef Sase.ProofsExactLoop Sase.ProofsExactRun Sase.ProofsExact Sase.ProofsExactText.
+  Sase.Ref Sase.ProofsExactRef Sase.ProofsExactLoop Sase.ProofsExactRun Sase.ProofsExact Sase.ProofsExactText Sase.ProofsNoPanic.
 From Coq Require Import Permutation.
 
 (* ------------------------------------------------------------------ C01 *)
@@ -113,10 +113,26 @@ Proof.
   intros r k p mx K N. destruct (enumerate_spec r k p mx K N) as (combos & all & _ & _ & _ & _ & E).
   eexists. split; [exact E|]. rewrite firstn_length. unfold cap_of. lia.
 Qed.
-(* Not proved for C05: that [process] never returns None (no panic) for every compiled NFA --
-   it needs the well-formedness of compiled NFAs plus KInv as a run invariant; and the bound on
-   the number of Kleene events kept per run.  Both are covered by the differential check and
-   its oracle (harness catch_unwind, stack-length bound) only. *)
+(* Processing never panics: for every pattern (any steps, any `all` flags, any filters), every
+   .not list, partitioning, run limit (0 included), strategy, Kleene limits and every stream, the
+   model's engine returns after every event -- no state index out of range in advance_run_shared,
+   every ZDD extension of a Kleene capture succeeds, enumeration finds every event it indexes,
+   the swap_remove loop ends within its fuel.  [None] is the model's only panic outcome. *)
+Theorem C05_never_panics :
+  forall steps negs part max_runs st lim evs,
+    exists en', run_engine (mkCfg (compile steps) negs part max_runs st lim) engine0 evs = Some en'.
+Proof.
+  intros steps negs part mx st lim evs.
+  exact (stream_total (mkCfg (compile steps) negs part mx st lim) (compile_closed steps) evs engine0 (engine0_safe _)).
+Qed.
+(* one step, from any engine state whose runs point into the NFA and hold usable Kleene captures *)
+Theorem C05_step_never_panics :
+  forall g en x, closed (g_nfa g) -> engine_safe (g_nfa g) en ->
+    exists en' ms, process g en x = Some (en', ms) /\ engine_safe (g_nfa g) en'.
+Proof. exact process_total. Qed.
+(* Not proved for C05: the bound on the number of Kleene events kept per run (it is
+   max_kleene_events per `all` step, not per run: a second `all` step counts on top of the
+   first's capture).  Covered by the differential check and its stack-length oracle only. *)
 
 (* non-vacuity: a concrete engine run that emits matches and hits the run limit *)
 Example C05_bound_reached :
